@@ -413,7 +413,11 @@ class SQLGenerator:
 
         # Build CTEs for all models with pushed-down filters
         cte_sqls = []
-        for model_name in all_models:
+        # Deterministic CTE order: the query's models in their resolved order, then the
+        # intermediate join models by name (all_models is a set)
+        ordered_models = [m for m in model_names if m in all_models]
+        ordered_models += sorted(all_models - set(ordered_models))
+        for model_name in ordered_models:
             model_filters = pushdown_filters.get(model_name, [])
             metric_filter_cols = metric_filter_cols_by_model.get(model_name)
             cte_sql = self._build_model_cte(
@@ -597,12 +601,12 @@ class SQLGenerator:
                             # Inline SQL expression metrics (e.g., SUM(orders.amount))
                             # can have empty dependencies, so also parse model refs directly.
                             if metric.sql:
-                                for model_name in self._extract_models_from_sql(metric.sql):
+                                for model_name in sorted(self._extract_models_from_sql(metric.sql)):
                                     add_model(model_name)
                         elif metric.agg and metric.sql:
                             # Graph-level simple aggregations can qualify fields
                             # (e.g., SUM(orders.amount)); include those models.
-                            for model_name in self._extract_models_from_sql(metric.sql):
+                            for model_name in sorted(self._extract_models_from_sql(metric.sql)):
                                 add_model(model_name)
                 except KeyError:
                     pass
@@ -1133,7 +1137,7 @@ class SQLGenerator:
         all_metric_columns = set(metric_filter_columns or set()) | extra_metric_sql_columns
 
         # Add raw columns referenced by inline aggregate SQL (if they are not dimensions/measures)
-        for col_name in all_metric_columns:
+        for col_name in sorted(all_metric_columns):
             if col_name in columns_added:
                 continue
             dim = model.get_dimension(col_name)
@@ -1150,13 +1154,13 @@ class SQLGenerator:
 
         # Also include measure columns referenced in metric_filter_columns (for derived metrics
         # with inline SQL aggregations like "SUM(quantity * unit_price) / COUNT(DISTINCT order_id)")
-        for col_name in all_metric_columns:
+        for col_name in sorted(all_metric_columns):
             # Check if this column is a measure (not a dimension)
             measure = model.get_metric(col_name)
             if measure and measure.agg and col_name not in measures_needed:
                 measures_needed.add(col_name)
 
-        for measure_name in measures_needed:
+        for measure_name in sorted(measures_needed):
             measure = model.get_metric(measure_name)
             if measure:
                 # Build the base SQL expression for the measure
